@@ -349,6 +349,14 @@ func c03Shared(c *Ctx) {
 		}
 		reqs, exps = append(reqs, mon.OpReq{Op: op, Inputs: []*ref.T{x, y}}), append(exps, e)
 		desc += fmt.Sprintf("%s%v%v ", op, x.Shape, y.Shape)
+		if x != y && r.Chance(0.3) && !(op == "Div" && dt.IsInt()) {
+			// the same operator over the same two tensors in the opposite order (as one graph: two
+			// nodes that differ in the order of their input names only)
+			if e2, skip2 := c03Expect(op, y, x); skip2 == "" {
+				reqs, exps = append(reqs, mon.OpReq{Op: op, Inputs: []*ref.T{y, x}}), append(exps, e2)
+				desc += fmt.Sprintf("%s%v%v ", op, y.Shape, x.Shape)
+			}
+		}
 	}
 	if len(reqs) < 2 {
 		c.Skip("fewer than two calls drawn")
